@@ -4,6 +4,7 @@ import (
 	"bytes"
 	"fmt"
 	"strings"
+	"sync/atomic"
 
 	"verif/engine/bind"
 	"verif/engine/ev"
@@ -227,7 +228,7 @@ func cutField(t *rm.Type, w []byte, k int) string {
 }
 
 func runC11(r *ev.Run, thorough bool) {
-	r.Rule = "per type: every canonical value of V1 (all list lengths 0..3 and 255..257, every registered key, empty and full texts; V2 of structural positions in thorough) x EVERY cut position 0..len-1; for encodings of 60,000 bytes and more (texts/lists of 65,535..70,000 elements) cuts at every multiple of 4096 from either end +-1 and the first/last 64 positions: decoding the strict prefix must return an error; distinct = (type, prefix bytes); zero-length encodings have no strict prefix and are counted separately"
+	r.Rule = "per type: every canonical value of V1 (all list lengths 0..3 and 255..257, every registered key, empty and full texts; V2 of structural positions in thorough) x EVERY cut position 0..len-1; for encodings of 60,000 bytes and more (texts/lists of 65,535..70,000 elements) cuts at every multiple of 4096 from either end +-1 and the first/last 64 positions: plus every value of the complete size sweeps (every prefixed-text length / list length up to the sweep bound) and of the Big alphabets cut at every field boundary +-1, the last 16 positions and every multiple of 64 +-1: decoding the strict prefix must return an error; distinct = (type, prefix bytes); zero-length encodings have no strict prefix and are counted separately"
 	parTypes(r, bind.Types, func(t *rm.Type, l *ev.Local) {
 		seen := map[uint64]struct{}{}
 		k := 1
@@ -333,6 +334,70 @@ func runC11(r *ev.Run, thorough bool) {
 			return true
 		})
 	})
+	// mid-range sizes: every value of the complete size sweeps and the Big alphabets (every prefixed-text length, every
+	// list length up to the sweep bound, block sizes, text-list length pairs/triples), cut at every field boundary +-1 (all
+	// of them for encodings of <= 64 segments, the first and last 8 segments otherwise), in the last 16 positions and at
+	// every multiple of 64 +-1: a reader with a size-dependent fast path or block loop swallows a short read there
+	st, sl := 1100, 150
+	if thorough {
+		st, sl = 8300, 1100
+	}
+	var nmid int64
+	parTypes(r, bind.Types, func(t *rm.Type, l *ev.Local) {
+		seen := map[uint64]struct{}{}
+		n := int64(0)
+		one := func(c *valenum.Case) bool {
+			if c.NDev == 0 {
+				return true
+			}
+			w, segs, _, err := rm.EncodeRef(c.V)
+			if err != nil || len(w) == 0 || len(w) >= 60000 {
+				return true
+			}
+			h := ev.H(string(w))
+			if _, ok := seen[h]; ok {
+				return true
+			}
+			seen[h] = struct{}{}
+			cuts := map[int]struct{}{}
+			addc := func(x int) {
+				if x >= 0 && x < len(w) {
+					cuts[x] = struct{}{}
+				}
+			}
+			for i, sg := range segs {
+				if len(segs) <= 64 || i < 8 || i >= len(segs)-8 {
+					addc(sg.Off - 1)
+					addc(sg.Off)
+					addc(sg.Off + 1)
+				}
+			}
+			for i := 1; i <= 16; i++ {
+				addc(len(w) - i)
+			}
+			for k := 64; k < len(w); k += 64 {
+				addc(k - 1)
+				addc(k)
+				addc(k + 1)
+			}
+			for cut := range cuts {
+				l.Eval(ev.H(fmt.Sprint(t.QName(), "mid", h, cut)), true)
+				l.Transitions++
+				l.Traces++
+				n++
+				if viol := c11Cut(t, w, cut); viol != nil {
+					viol.Detail = "value base " + c.Base + " {" + c.Desc + "}: " + viol.Detail
+					r.Violate(viol)
+					return !r.TooMany()
+				}
+			}
+			return true
+		}
+		valenum.Enum(t, valenum.Opts{K: 1, Canonical: true, SweepText: st, SweepList: sl}, one)
+		valenum.Enum(t, valenum.Opts{K: 1, Canonical: true, Big: true, Combos: thorough}, one)
+		atomic.AddInt64(&nmid, n)
+	})
+	r.Set("mid_range_size_cuts", map[string]any{"every_prefixed_text_length_0_to": st, "every_list_length_0_to": sl, "cuts": nmid})
 	r.Sample("sse.ExecRptInfo D {.Pbu=n=3} cut at 17 of 46 -> error")
 	r.Set("bound", map[string]any{"k_deviations": k12(thorough), "cuts": "every position"})
 }
